@@ -900,7 +900,10 @@ Varable failures: {var_failed}
         from collections.abc import Iterable
         outf = PseudoNetCDFFile.stack(self, other, stackdim)
         if stackdim == 'LAY' and hasattr(self, 'VGLVLS'):
-            if isinstance(other, Iterable):
+            if hasattr(other, 'variables') and hasattr(other, 'dimensions'):
+                # one file (a file read from netCDF defines __iter__)
+                others = [other]
+            elif isinstance(other, Iterable):
                 others = list(other)
             else:
                 others = [other]
